@@ -23,7 +23,7 @@ from verus_registry import Lost
 VDIR = os.path.join(shv.VERIF, 'verus', 'pollsignal')
 SRC = 'src/iterator/backend.rs'
 GHOST_LINE = re.compile(r'^\s*(#\[verifier::exec_allows_no_decreases_clause\]|proof \{ assert\(|requires |ensures\s*$|invariant_except_break\s*$|invariant\s*$)')
-CONT_LINE = re.compile(r'^\s{8,}(poll_pending_post|pending_only_if_armed|closed_only_if_closed|signal_from_scan|err_from_callback|!tr@|tr@)')
+CONT_LINE = re.compile(r'^\s{8,}(flush_calls_ok|final\(tr\)@|forall\|i: int\||poll_pending_post|pending_only_if_armed|closed_only_if_closed|signal_from_scan|err_from_callback|!tr@|tr@)')
 
 HEADER = '''// GENERATED on every run by lib/verus_pollsignal.py from %s - do not edit
 #![allow(unused_imports, dead_code, unknown_lints, non_camel_case_types, private_interfaces, unused_variables, unused_mut)]
@@ -112,6 +112,59 @@ def rewrite_pp(text):
     return text, notes
 
 
+def _find_priv_method(lines, kind, name):
+    rx = re.compile(r'^    fn %s\b' % re.escape(name))
+    return [(i, []) for i, l in enumerate(lines) if rx.match(l)]
+
+
+def rewrite_flush(text):
+    """F0-F2 on flush"""
+    notes = []
+    lines = text.split('\n')
+    if lines[0] != '    fn flush(&mut self) {':
+        raise Lost('anchor lost: first line of flush is not `fn flush(&mut self) {`')
+    lines[0:1] = ['    fn flush(&mut self, tr: &mut Ghost<Seq<RecvEv>>)', '    {']
+    notes.append('F0: ghost parameter `tr` appended to the signature of flush, `{` on its own line')
+    out, skip, n_aix = [], 0, 0
+    for l in lines:
+        if skip:
+            skip -= 1
+            continue
+        if re.match(r'^\s*#\[cfg\(target_os = "aix"\)\]\s*$', l):
+            skip = 1
+            n_aix += 1
+            continue
+        if re.match(r'^\s*#\[cfg\(not\(target_os = "aix"\)\)\]\s*$', l):
+            continue
+        out.append(l)
+    notes.append('F1: %d `#[cfg(target_os = "aix")]` statement(s) dropped, `#[cfg(not(target_os = "aix"))]` attribute(s) dropped (the non-aix variant is verified)' % n_aix)
+    text = '\n'.join(out)
+    code = re.sub(r'//.*$', '', text, flags=re.M)
+    if len(re.findall(r'\bwhile\b', code)) != 1 or re.search(r'\b(loop|for)\b', code):
+        raise Lost('anchor lost in flush: expected exactly one `while` and no other loop')
+    if len(re.findall(r'libc::recv\(', code)) != 1 or len(re.findall(r'libc::\w+\(', code)) != 1:
+        raise Lost('anchor lost in flush: expected exactly one libc call, `libc::recv(`')
+    # F2: append the ghost trace as last argument of the recv call (parenthesis matching)
+    a = text.index('libc::recv(') + len('libc::recv(')
+    depth, k = 1, a
+    while depth:
+        depth += {'(': 1, ')': -1}.get(text[k], 0)
+        k += 1
+    close = k - 1
+    args = text[a:close]
+    m = re.search(r',\n(\s*)$', args)
+    if not m:
+        raise Lost('anchor lost in flush: the recv call is not a multi-line call with a trailing comma')
+    text = text[:close] + '    tr,\n' + m.group(1) + text[close:]
+    notes.append('F2: ghost trace `tr,` appended as last argument of the one `libc::recv(..)` call')
+    if re.search(r'\btr\b', re.sub(r'\n\s*tr,\n', '\n', re.sub(r'//.*$', '', text.split('\n', 1)[1], flags=re.M))):
+        raise Lost('anchor lost in flush: the identifier `tr` is used by the code')
+    calls = set(re.findall(r'\b([A-Za-z_]\w*)\s*\(', re.sub(r'//.*$', '', text.split('\n', 1)[1], flags=re.M))) - {'recv', 'as_raw_fd', 'as_mut_ptr', 'while'}
+    if calls:
+        raise Lost('anchor lost in flush: calls outside the contract vocabulary: %s' % ', '.join(sorted(calls)))
+    return text, notes
+
+
 def build(sc):
     src_path = os.path.join(sc.path, SRC)
     if not os.path.exists(src_path):
@@ -126,6 +179,7 @@ def build(sc):
         VR.take_item(lines, items, notes, 'struct', 'SignalIterator')
         VR.take_item(lines, items, notes, 'fn', 'poll_signal', finder=_find_method)
         VR.take_item(lines, items, notes, 'fn', 'poll_pending', finder=_find_method)
+        VR.take_item(lines, items, notes, 'fn', 'flush', finder=_find_priv_method)
     finally:
         VR.SRC = save
     impl_hdr = 'impl<SD, E: Exfiltrator> SignalIterator<SD, E> {'
@@ -146,7 +200,9 @@ def build(sc):
     gen.append(items['SignalIterator']['text'])
     gen.append(open(os.path.join(VDIR, 'spec_p.rs')).read().rstrip('\n'))
     obl_at, fn_span, n_inserted = {}, {}, 0
-    for fn, rw, hdr in (('poll_pending', rewrite_pp, '\n'.join(sd_hdr)), ('poll_signal', rewrite, impl_hdr)):
+    if not sd_at[0] < items['flush']['first_line']:
+        raise Lost('anchor lost: flush is not inside the SignalDelivery impl')
+    for fn, rw, hdr in (('flush', rewrite_flush, '\n'.join(sd_hdr)), ('poll_pending', rewrite_pp, '\n'.join(sd_hdr)), ('poll_signal', rewrite, impl_hdr)):
         rewritten, rnotes = rw(items[fn]['text'])
         notes += rnotes
         gen.append('// ---- EXTRACTED fn %s (line %d of %s), rewritten as stated, + contract overlay' % (fn, items[fn]['first_line'], SRC))
